@@ -53,7 +53,10 @@ def entries(ctx):
     for mod, name, stride in ((c01, "C01", 1), (c02, "C02", 1 if not ctx.quick else 2), (c03, "C03", 1), (c04, "C04", 1)):
         for w in mod.configs(tier)[::stride]:
             y = B.to_yaml(w["spec"])
+            n0 = len(es)
             add(name + ":" + w["tag"], y, "plain")
+            if name in ("C01", "C02") and len(es) > n0:
+                es[-1]["must_compile"] = True
     events = c05.QUICK_EVENTS if ctx.quick else list(c05.EVENTS)
     for h in c05.histories(events, 2):
         add("C05:" + "+".join(e for e, _ in h), B.to_yaml(c05.build_spec(h)), "plain")
@@ -71,6 +74,13 @@ def entries(ctx):
                 y = {"einsum": {"declaration": {"I": ["W"], "F": ["Q"], "Z": ["S"]},
                                 "expressions": ["Z[s] = I[%s + %s] * F[q]" % (term(a, "q"), term(b, "s"))]}, "mapping": m}
                 add("REV(%d,%d)/%s" % (a, b, "+".join(st)), y, "plain")
+    # batched, partitioned convolution with an extra directly indexed input (several tensors feed one eager-input node)
+    for expr in ("O[b, q] = I[b, q + s] * F[s] * G[q]", "O[b, q] = G[q] * I[b, q + s] * F[s]", "O[b, q] = I[b, q + s] * F[s]"):
+        for lo in (["B", "Q1", "W0", "Q0"], ["Q1", "B", "W0", "Q0"], ["B", "Q1", "S", "Q0"], ["Q1", "W0", "B", "Q0"]):
+            y = {"einsum": {"declaration": {"I": ["B", "W"], "F": ["S"], "G": ["Q"], "O": ["B", "Q"]}, "expressions": [expr]},
+                 "mapping": {"partitioning": {"O": {"Q": ["uniform_shape(2)"], "W": ["follow(Q)"]}}, "loop-order": {"O": lo}}}
+            add("CONVB/" + "".join(lo), y, "plain")
+            es[-1]["must_compile"] = True
     for fname, y in yaml_files():
         if "architecture" in y and "bindings" in y:
             add("file:" + fname, y, "metrics")
